@@ -107,6 +107,11 @@ def psd_layouts(d, ctx):
                 m = np.moveaxis(rng.dirichlet(np.ones(K), size=(*lead, T)), -1, -2)
             else:
                 m = rng.uniform(0, 1, size=mshape)
+        # "invariant to positive rescaling of a normalised mask": the level of
+        # a float mask is anything from 1e-9 to 1e3 in every second case (the
+        # documented floor of the normaliser is 1e-10 and is part of the oracle)
+        if mkind in ('float', 'posterior', 'sparse') and d.aux(102).integers(0, 2):
+            m = m * 10.0 ** d.aux(103).uniform(-9, 3)
         if mkind in ('float', 'posterior', 'sparse') and d.int(0, 3) == 0:
             m = m.astype(np.float32)
             rt = max(rt, 1e-5)
